@@ -259,7 +259,26 @@ GenSeq(cs, k, b) ==
 Trailing(s) == {V("end+X", s \o <<"X">>), V("end+space", s \o <<" ">>),
                 V("end+line", s \o <<"\n", "E", "X", "T", "R", "A">>), V("end+nl", s \o <<"\n">>)}
 
-Contents(f) == GenSeq(f.fmt, 1, Budget) \cup Trailing(TypSeq(f.fmt, 1))
+(* the choice a format opens with (optional identifier line absent, another alternative) taken together with
+   what makes the rest longest: the line-count variants of every later component and the trailing additions.
+   Two deviations, but the pair a parser that counts lines before it has told the identifier line from the
+   text lines gets wrong -- so it is drawn at every budget.                                                  *)
+Choice(c) == CASE c.k = "opt" -> {V("absent", <<>>)}
+               [] c.k = "alt" -> {V("alt" \o ToString(a), TypSeq(c.alts[a], 1)) : a \in 2..Len(c.alts)}
+               [] OTHER -> {}
+LineVars(c) == IF c.k = "lines" /\ c.cls # "single"
+               THEN LET t == TypSeq(c.body, 1) IN {V("maxlines", NLines(c, c.max, t)), V("maxlines+1", NLines(c, c.max + 1, t))}
+               ELSE {}
+RECURSIVE TypRange(_, _, _)
+TypRange(cs, a, b) == IF a > b THEN <<>> ELSE Typ(cs[a]) \o TypRange(cs, a + 1, b)
+ChoicePairs(f) ==
+  LET cs == f.fmt IN
+    UNION {   {V("1." \o ch.l \o " & " \o tr.l, tr.s) : tr \in Trailing(ch.s \o TypSeq(cs, 2))}
+         \cup UNION {{V("1." \o ch.l \o " & " \o ToString(k) \o "." \o lv.l, ch.s \o TypRange(cs, 2, k - 1) \o lv.s \o TypSeq(cs, k + 1)) :
+                        lv \in LineVars(cs[k])} : k \in 2..Len(cs)}
+          : ch \in Choice(cs[1])}
+
+Contents(f) == GenSeq(f.fmt, 1, Budget) \cup Trailing(TypSeq(f.fmt, 1)) \cup ChoicePairs(f)
 
 (* -------------------------------- formats -------------------------------- *)
 PI       == Alt(<< <<Lit("/"), Cl("a", 1, 1), Lit("/"), Cl("x", 1, 34)>>, <<Lit("/"), Cl("x", 1, 34)>> >>)
